@@ -514,4 +514,144 @@ def cvarVariationData (d : List Nat) (ac : Nat) : R TVD :=
                   headerData := d.drop 8, ser := ser }
     | _, _ => .trap
 
+/-! ## `Cvar::deltas` (cvar.rs) -/
+
+/-- `*value = value.wrapping_add(delta.apply_scalar(scalar).to_bits())` for `deltas.get_mut(ix)`;
+`CvtDelta::apply_scalar` = `Fixed::from_i32(self.value) * scalar` (`Checked.fxFromI32`, `Checked.fxMul`:
+`none` = arithmetic trap).  An index beyond the buffer is skipped. -/
+def applyCvt (buf : List Int) (ix : Nat) (value scalar : Int) : Option (List Int) :=
+  match buf[ix]? with
+  | none => some buf
+  | some cur =>
+    match Checked.fxFromI32 value with
+    | none => none
+    | some f =>
+      match Checked.fxMul f scalar with
+      | none => none
+      | some prod => some (buf.set ix (Checked.i32.wrappingAdd cur prod))
+
+/-- the inner `for delta in tuple.deltas()` loop -/
+def applyCvtAll : List (Nat × Int × Int) → Int → List Int → Option (List Int)
+  | [], _, buf => some buf
+  | (pos, v, _) :: rest, scalar, buf =>
+    match applyCvt buf pos v scalar with
+    | none => none
+    | some buf' => applyCvtAll rest scalar buf'
+
+/-- the outer `for (tuple, scalar) in var_data.active_tuples_at(coords)` loop -/
+def cvarDeltasLoop (p : TVD) : List (TV × Int) → List Int → R (List Int)
+  | [], buf => .ok buf
+  | (t, scalar) :: rest, buf =>
+    match t.deltasTrace p false with
+    | none => .trap
+    | some evs =>
+      if trapped evs then .trap
+      else
+        match applyCvtAll (items evs) scalar buf with
+        | none => .trap
+        | some buf' => cvarDeltasLoop p rest buf'
+
+/-- `Cvar::deltas(axis_count, coords, deltas)` on the caller's buffer `buf`; `ok` = the buffer afterwards -/
+def cvarDeltas (d : List Nat) (ac : Nat) (coords : List Int) (buf : List Int) : R (List Int) :=
+  match cvarVariationData d ac with
+  | .err e => .err e
+  | .trap => .trap
+  | .ok p =>
+    match activeTuples p coords with
+    | none => .trap
+    | some .trap => .trap
+    | some (.err e) => .err e
+    | some (.ok l) => cvarDeltasLoop p l buf
+
+/-! ## `Gvar` (gvar.rs + the generated reader) -/
+
+/-- a successfully read `Gvar`: `TableRef { data, shape }` -/
+structure Gv where
+  d : List Nat
+  /-- `glyph_variation_data_offsets_byte_len` -/
+  offsLen : Nat
+  deriving Repr, DecidableEq
+
+/-- generated `Gvar::read`: four `advance`s, `glyph_count = cursor.read()?`, `flags = cursor.read()?`,
+`advance::<u32>()`, `transforms::add(glyph_count, 1).checked_mul(U16Or32::compute_size(&flags)?)
+.ok_or(OutOfBounds)?`, `advance_by`, `finish`.  `none` = `Err(OutOfBounds)`. -/
+def gvarRead (d : List Nat) : Option Gv :=
+  match readAt d 12 2, readAt d 14 2 with
+  | some gc, some flags =>
+    match checkedMul (satAdd gc 1) (if flags % 2 = 1 then 4 else 2) with
+    | none => none
+    | some olen => if satAdd 20 olen ≤ d.length then some ⟨d, olen⟩ else none
+  | _, _ => none
+
+/-- generated getters (`self.data.read_at(range.start).unwrap()`; `none` = panic) -/
+def Gv.axisCount (g : Gv) : Option Nat := readAt g.d 4 2
+def Gv.sharedTupleCount (g : Gv) : Option Nat := readAt g.d 6 2
+def Gv.sharedTuplesOffset (g : Gv) : Option Nat := readAt g.d 8 4
+def Gv.glyphCount (g : Gv) : Option Nat := readAt g.d 12 2
+/-- `GvarFlags::from_raw` = `from_bits_truncate`: only `LONG_OFFSETS` (bit 0) is a known flag -/
+def Gv.flags (g : Gv) : Option Nat := (readAt g.d 14 2).map (· % 2)
+def Gv.dao (g : Gv) : Option Nat := readAt g.d 16 4
+
+/-- `Gvar::shared_tuples()?.tuples()`: `Offset32::resolve_with_args` (`NullOffset` for 0, `split_off`),
+generated `SharedTuples::read_with_args` (`count.checked_mul(Tuple::compute_size(&axis_count)?)`,
+`advance_by`, `finish`), `tuples()` = `data.read_with_args(0..len, &axis_count).unwrap()`
+(`ComputedArray::new` cannot fail for `Tuple`).  Result: the bytes of the `ComputedArray<Tuple>`. -/
+def Gv.sharedTuples (g : Gv) : R (List Nat) :=
+  match g.sharedTupleCount, g.axisCount, g.sharedTuplesOffset with
+  | some count, some ac, some off =>
+    match resolveData g.d off with
+    | .err e => .err e
+    | .trap => .trap
+    | .ok data =>
+      match checkedMul ac 2 with
+      | none => .err .oob
+      | some sz =>
+        match checkedMul count sz with
+        | none => .err .oob
+        | some tbl =>
+          if satAdd 0 tbl ≤ data.length then
+            match sliceExcl data 0 tbl with
+            | some _ => .ok (data.take tbl)
+            | none => .trap
+          else .err .oob
+  | _, _, _ => .trap
+
+/-- the stored offsets: `glyph_variation_data_offsets()` (`ComputedArray<U16Or32>` over the
+`offsLen` bytes at 20, item size 2 / 4 by `LONG_OFFSETS`) as the list of raw values; `get(i)` is `Ok`
+exactly for the whole items, i.e. `offs[i]?` -/
+def Gv.offsets (g : Gv) (long : Bool) : List Nat :=
+  let w := if long then 4 else 2
+  (List.range (g.offsLen / w)).map (fun i => HandRead.beAt g.d (20 + i * w) w)
+
+/-- `Gvar::data_for_gid(gid)` (`data_range_for_gid`: two `ComputedArray::get`, two `u32::checked_add`;
+empty range → `None`; `self.data.slice(range)`): `GvarLayout.dataForGid` on the decoded offsets -/
+def Gv.dataForGid (g : Gv) (gid : Nat) : R (Option (List Nat)) :=
+  match g.flags, g.dao with
+  | some flags, some dao =>
+    let long := decide (flags % 2 = 1)
+    match GvarLayout.dataForGid g.d long dao (g.offsets long) gid with
+    | none => .err .oob
+    | some r => .ok r
+  | _, _ => .trap
+
+/-- `Gvar::glyph_variation_data(gid)`: `shared_tuples()?`, `axis_count()`, `data_for_gid(gid)?`,
+`GlyphVariationData::new` -/
+def Gv.glyphVariationData (g : Gv) (gid : Nat) : R (Option TVD) :=
+  match g.sharedTuples with
+  | .err e => .err e
+  | .trap => .trap
+  | .ok shared =>
+    match g.axisCount with
+    | none => .trap
+    | some ac =>
+      match g.dataForGid gid with
+      | .err e => .err e
+      | .trap => .trap
+      | .ok none => .ok none
+      | .ok (some bytes) =>
+        match gvdNew bytes ac shared with
+        | .err e => .err e
+        | .trap => .trap
+        | .ok p => .ok (some p)
+
 end FontVerif.HandVar
